@@ -506,6 +506,15 @@ package proto
 //@   ensures err == nil ==> len(c.Values) == rows {rows}
 //@   ensures err == nil ==> r.failed == old(r.failed)
 //@   ensures old(r.pos) <= r.pos && r.pos <= r.end
+//@ -- the keys are read with the width the meta word announces (so exactly rows * width bytes)
+//@ callsite (*ColUInt8).DecodeColumn
+//@   assert c.key == 0 [C01,C06,C07] {one-byte-keys-only-when-announced}
+//@ callsite (*ColUInt16).DecodeColumn
+//@   assert c.key == 1 [C01,C06,C07] {two-byte-keys-only-when-announced}
+//@ callsite (*ColUInt32).DecodeColumn
+//@   assert c.key == 2 [C01,C06,C07] {four-byte-keys-only-when-announced}
+//@ callsite (*ColUInt64).DecodeColumn
+//@   assert c.key == 3 [C01,C06,C07] {eight-byte-keys-only-when-announced}
 //@ loop 0 (rangeindex)
 //@   modifies c.Values
 //@   invariant -1 <= rangeindex && rangeindex < len(c.keys) && len(c.Values) == rangeindex + 1
